@@ -135,7 +135,7 @@ def tbField (c : SendCfg) (e : ExcRec) : Except Err Val :=
 /-- `typ is StopIteration` -/
 def isStopIteration (c : ClsId) : Bool := c.kind == .builtin && c.name == stopIterationName
 
-/-- the condition of `dump`'s first `if` (its shape is generated from the AST) -/
+/-- the condition of `dump`'s first `if` (its shape is observed by the generator on probe exceptions) -/
 def fastPath (e : ExcRec) : Bool :=
   Gen.Vinegar.stopFastPathExists && isStopIteration e.cls
     && (!Gen.Vinegar.stopFastPathRequiresNoArgs || e.args.isEmpty)
